@@ -1,6 +1,22 @@
 package blockfetch
 
-import "github.com/blinklabs-io/gouroboros/protocol"
+import (
+	"github.com/blinklabs-io/gouroboros/connection"
+	"github.com/blinklabs-io/gouroboros/ledger"
+	"github.com/blinklabs-io/gouroboros/protocol"
+)
 
-// Overlay shim: the protocol's initial state (the value client.go/server.go pass as InitialState).
+// Overlay shim: initial state, and a client built without goroutines whose result channels
+// have a small buffer so that a sequential harness can run the real reply handlers before
+// the real request call picks the results up.
+
 func VerifInitialState() protocol.State { return StateIdle }
+
+func VerifNewClient(cfg *Config, id connection.ConnectionId) *Client {
+	c := &Client{config: cfg, Protocol: protocol.VerifRecordingProtocol(StateMap, StateIdle),
+		blockChan: make(chan ledger.Block, 2), startBatchResultChan: make(chan error, 2), batchDoneChan: make(chan struct{}, 2)}
+	c.callbackContext = CallbackContext{Client: c, ConnectionId: id}
+	return c
+}
+
+func VerifClientHandle(c *Client, msg protocol.Message) error { return c.messageHandler(msg) }
